@@ -96,3 +96,16 @@ Theorem C15_exec_value : forall (c : case),
   req (o_result (exec c)) (c_seqval c).
 Proof. exact exec_value. Qed.
 Print Assumptions C15_exec_value.
+
+(** ... and for by-value iterator sources (ticket / gate protocol, no eager site) *)
+Theorem C15_exec_value_iter : forall (c : case),
+  c_panic c = None -> c_pre c = 0 -> c_macro c = false -> c_iter c = true ->
+  ps_runs (c_st c) = 0 ->
+  (forall task len r, runner_new (ps_params (c_st c)) task len (c_avail c) = Some r -> runner_wf r) ->
+  (kind_of (c_p c) = KMap -> forall x, length (yields (trace (c_p c) x)) = 1) ->
+  (forall f, red_family (c_term c) = Some f ->
+     (forall a b c0, f (f a b) c0 = f a (f b c0)) /\ (forall a b, f a b = f b a)) ->
+  o_sequential (exec c) = false -> o_complete (exec c) = true -> o_result (exec c) <> RPanic ->
+  req (o_result (exec c)) (c_seqval c).
+Proof. exact exec_value_iter_case. Qed.
+Print Assumptions C15_exec_value_iter.
